@@ -1,4 +1,4 @@
-SPECIFICATION GSpec
+SPECIFICATION MCSpec
 CONSTANTS
   PfxNs <- T_PfxNs
   CanonPfx <- T_CanonPfx
@@ -16,11 +16,11 @@ CONSTANTS
   BodyPre <- T_BodyPre
   WinName <- T_WinName
   Dev <- DevAsIs
-  MaxOv = 3
-  Bases <- BasesT
+  MaxOv = 2
+  Bases <- BasesQ
   PoolJ <- PoolJ_Q
   PoolD <- PoolD_Q
-  Dumps <- DumpsT
+  Dumps <- DumpsQ
   Parts = 1
   Part = 0
   TitleU <- TitlesGood
@@ -33,5 +33,4 @@ INVARIANT P2_RestoreUndoesOverrides
 INVARIANT P3_ProbeWritesNothing
 INVARIANT P3_ProbeIsRight
 INVARIANT P3_OtherMarksKept
-INVARIANT GenInv
 CHECK_DEADLOCK FALSE
